@@ -111,7 +111,10 @@ def case_strategy():
               for _ in range(draw(st.integers(0, 2)))]
         gen = [["yield", draw(expr_strategy(allow_cn=False))] for _ in range(draw(st.integers(0, 2)))]
         return {"host": host, "stmts": stmts, "hi": hi, "gen": gen,
-                "closure": draw(st.booleans()), "defaults": draw(st.booleans())}
+                "closure": draw(st.booleans()), "defaults": draw(st.booleans()),
+                # how the body spells the recursion: the special `recurse`, the function's own name (a global, or a
+                # closure cell when the functions are built in a factory), or both
+                "recname": draw(st.sampled_from(["recurse", "recurse", "self", "both"])) if host == "func" else "recurse"}
 
     return _case()
 
@@ -160,8 +163,21 @@ def render(spec, real):
     slf = "self, " if method else ""
     names = {"REC": "recurse", "CN": "call_next"} if real else {
         "REC": "self.f" if method else "REC_", "CN": "CN_"}
-    if not real and method:
-        pass
+    recname = spec.get("recname", "recurse")
+    flip = [0]
+
+    def rec_name():
+        if not real or method or recname == "recurse":
+            return names["REC"]
+        if recname == "self":
+            return "f"
+        flip[0] += 1
+        return "f" if flip[0] % 2 else "recurse"
+
+    def subst(e):
+        while "{REC}" in e:
+            e = e.replace("{REC}", rec_name(), 1)
+        return e
     ind = "    " if not method else "        "
     base = "" if not method else "    "
     lines = []
@@ -186,19 +202,19 @@ def render(spec, real):
         sig += ", d=DEF_D, *, kd=DEF_KD"
     body = [f"{ind}acc = []"]
     for kind, e in spec["stmts"]:
-        e2 = number(e, nxt).replace("{REC}", names["REC"]).replace("{CN}", names["CN"])
+        e2 = subst(number(e, nxt)).replace("{CN}", names["CN"])
         body += render_stmt(kind, e2, ind)
     ret = "acc"
     if spec["defaults"]:
         ret += ", d, kd"
     if spec["closure"]:
-        ret += ", CV"
+        ret += ", ACV, zCV"
     body.append(f"{ind}return ({ret},)")
     emit_def([], sig, body)
     if spec["hi"]:
         body = [f"{ind}acc = []"]
         for kind, e in spec["hi"]:
-            e2 = number(e, nxt).replace("{REC}", names["REC"])
+            e2 = subst(number(e, nxt))
             if real:
                 e2 = e2.replace("{CN}", "call_next")
             else:
@@ -209,13 +225,13 @@ def render(spec, real):
     if spec["gen"]:
         body = []
         for kind, e in spec["gen"]:
-            e2 = number(e, nxt).replace("{REC}", names["REC"]).replace("{CN}", names["CN"])
+            e2 = subst(number(e, nxt)).replace("{CN}", names["CN"])
             body += render_stmt(kind, e2, ind)
         emit_def([], "x: TokG", body)
     src = "\n".join(lines) + "\n"
     if spec["closure"]:
         # wrap everything in a factory so that CV is a closure cell
-        src = "def make(CV):\n" + "".join("    " + l + "\n" for l in src.splitlines()) + (
+        src = "def make(ACV, zCV):\n" + "".join("    " + l + "\n" for l in src.splitlines()) + (
             "    return Host\n" if method else "    return f\n")
     return src
 
@@ -250,14 +266,14 @@ def build(spec, real):
     src = render(spec, real)
     fname = install_source(src, tag="verifc09")
     pr = Probes()
-    defd, defkd, cv = ["D"], ("KD",), {"cv": 1}
+    defd, defkd, cv, cv2 = ["D"], ("KD",), {"cv": 1}, {"cv": 2}
     glb = {"__name__": "verifc09mod", "ovld": ovld.ovld, "OvldBase": ovld.OvldBase, "recurse": ovld.recurse,
            "call_next": ovld.call_next, "Tok": Tok, "TokG": TokG, "_P": pr.P, "_Q": pr.Q, "_G": _G, "_L": _L,
            "DEF_D": defd, "DEF_KD": defkd}
     exec(compile(src, fname, "exec"), glb, glb)
     method = spec["host"] == "method"
     if spec["closure"]:
-        obj = glb["make"](cv)
+        obj = glb["make"](cv, cv2)
     else:
         obj = glb["Host"] if method else glb["f"]
     if method:
@@ -270,7 +286,7 @@ def build(spec, real):
         ov = obj.__ovld__
     target_globals = glb
     return {"src": src, "fname": fname, "glb": target_globals, "fn": fn, "ov": ov, "probes": pr, "inst": inst,
-            "objs": (defd, defkd, cv), "method": method}
+            "objs": (defd, defkd, cv, cv2), "method": method}
 
 
 def install_reference(ref, spec):
